@@ -5,7 +5,7 @@ cd /verif
 PROPS=$(python3 -c "import json; print(' '.join(c['property_id'] for c in json.load(open('MANIFEST.json'))['checks']))")
 OUT=$(mktemp -d /tmp/gsa-seedmatrix-XXXXXX)
 for d in seeded/*/; do s=$(basename $d); for p in $PROPS; do echo "$s $p"; done; done | \
-  xargs -P 14 -L 1 bash -c './selftest/run.py --patch seeded/$0/patch.diff --prop $1 > '$OUT'/$0.$1.out 2>&1'
+  xargs -P 8 -L 1 bash -c './selftest/run.py --patch seeded/$0/patch.diff --prop $1 > '$OUT'/$0.$1.out 2>&1'
 printf "%-10s" seed; for p in $PROPS; do printf "%4s" $p; done; echo
 for d in seeded/*/; do
   s=$(basename $d)
